@@ -4,7 +4,6 @@ import (
 	"fmt"
 	"io"
 	"log"
-	"os"
 	"sort"
 	"sync/atomic"
 	"testing"
@@ -23,7 +22,6 @@ import (
 
 var (
 	digestA = digest.MustNewDigest("inst", remoteexecution.DigestFunction_SHA256, "aaaaaaaaaaaaaaaa11111111111111111111111111111111aaaaaaaaaaaaaaaa", 123)
-	digestB = digest.MustNewDigest("inst", remoteexecution.DigestFunction_SHA256, "bbbbbbbbbbbbbbbb22222222222222222222222222222222bbbbbbbbbbbbbbbb", 456)
 )
 
 // action of a worker thread: nil digest = "may run in parallel".
@@ -35,17 +33,29 @@ type config struct {
 	runnerOps  []string   // script of the runner thread ("Run", "CheckReadiness")
 	maxFaults  int
 	maxCancels int
-	bounds     map[string]int
-	shards     int
+	faultAt    []string // operations that may fail
+	quiet      []string // operations that are no scheduling points
+	// c14: the scenario also serves C14 (lock leaks on every return,
+	// deadlock / lost wake-up).
+	c14 bool
+	// failingBase: the creator under test is Clean(fake base creator
+	// that may fail) instead of Shared(Clean(Root)).
+	failingBase bool
+	bounds      map[string]int
+	shards      int
 }
 
 func scenario(c config) *mc.Scenario {
 	// One execution at a time per process: the world of the current
 	// execution is handed from Build to Finish through this variable.
 	var cur *world
+	props := []string{"C12"}
+	if c.c14 {
+		props = append(props, "C14")
+	}
 	return &mc.Scenario{
 		Name:     c.name,
-		Props:    []string{"C12", "C14"},
+		Props:    props,
 		Liveness: []string{"C12", "C14"},
 		Livelock: []string{"C12", "C14"},
 		Panics:   []string{"C12"},
@@ -53,9 +63,9 @@ func scenario(c config) *mc.Scenario {
 		// The search is unbounded (state pruning); faults and
 		// cancellations are bounded by the harness itself.
 		PreemptFree: true,
-		Shards:   c.shards,
+		Shards:      c.shards,
 		Build: func(x *mc.X) {
-			w := newWorld(x, c.maxFaults, c.maxCancels)
+			w := newWorld(x, c.maxFaults, c.maxCancels, c.faultAt, c.quiet)
 			cur = w
 			idle := re_cleaner.NewIdleInvoker(w.clean)
 			var counter atomic.Uint64
@@ -64,31 +74,39 @@ func scenario(c config) *mc.Scenario {
 					builder.NewRootBuildDirectoryCreator(&fakeDir{w: w, n: w.root}),
 					idle),
 				&counter)
+			if c.failingBase {
+				creator = builder.NewCleanBuildDirectoryCreator(&fakeCreator{w: w}, idle)
+			}
 			cleanRunner := runner.NewCleanRunner(&fakeRunner{w: w}, idle)
 
 			x.SetKey(func() string {
 				uc, cl := re_cleaner.VerifIdleInvokerDump(idle)
-				k := fmt.Sprintf("ii=%d,%v|n=%d|%s", uc, cl, counter.Load(), w.key())
-				if dbgKeys != nil {
-					dbgKeys[k]++
-				}
-				return k
+				return fmt.Sprintf("ii=%d,%v|n=%d|%s", uc, cl, counter.Load(), w.key())
 			})
 
+			// Register all threads before starting any (in the free-running
+			// race pass threads run as soon as they are spawned).
+			var workers []*thread
+			for i := range c.workers {
+				workers = append(workers, w.addThread(fmt.Sprintf("W%d", i+1)))
+			}
+			var runnerThread *thread
+			if len(c.runnerOps) > 0 {
+				runnerThread = w.addThread("R")
+			}
+			order := append([]string(nil), w.order...)
 			for i, script := range c.workers {
-				script := script
-				t := w.addThread(fmt.Sprintf("W%d", i+1))
+				t, script := workers[i], script
 				x.Go(t.name, func() { w.workerThread(t, creator, script) })
 			}
-			if len(c.runnerOps) > 0 {
-				t := w.addThread("R")
-				x.Go(t.name, func() { w.runnerThread(t, cleanRunner, c.runnerOps) })
+			if runnerThread != nil {
+				x.Go("R", func() { w.runnerThread(runnerThread, cleanRunner, c.runnerOps) })
 			}
 
 			// Context cancellation of a thread that is in the
 			// acquiring half of a call (in particular while it
 			// waits for an in-flight cleaning).
-			for _, n := range w.order {
+			for _, n := range order {
 				t := w.threads[n]
 				x.AddEvent(&mc.Event{
 					Name: "cancel:" + t.name,
@@ -150,6 +168,7 @@ func (w *world) workerThread(t *thread, creator builder.BuildDirectoryCreator, s
 		x.CheckNoLocksHeld("GetBuildDirectory")
 		x.Logf("%s: GetBuildDirectory -> err=%v", t.name, err)
 		if err != nil {
+			w.checkFailureJustified(t, a, err)
 			w.checkGone(t, "GetBuildDirectory(error)")
 			x.Outcome("%s#%d=acquire-error", t.name, i)
 			continue
@@ -188,6 +207,26 @@ func (w *world) finishThread(t *thread) {
 	t.finished = true
 	w.mu.Unlock()
 	w.x.ResetLocal(t.name + "#end")
+}
+
+// checkFailureJustified: "every action gets a build directory of its own" -
+// GetBuildDirectory may only fail because of something the environment did
+// to this call: an injected fault (cleaner, directory operation), a
+// cancellation, or a directory of the same name that survived an injected
+// removal fault.
+func (w *world) checkFailureJustified(t *thread, a action, err error) {
+	w.mu.Lock()
+	defer w.mu.Unlock()
+	if t.callFaults != 0 || t.cancelled {
+		return
+	}
+	if a.d != nil {
+		name := a.d.GetHashString()[:16]
+		if _, ok := w.root.children[name]; ok && w.removalFaulted[name] {
+			return
+		}
+	}
+	w.fail("no-directory", "GetBuildDirectory of %s failed although no fault was injected into it and it was not cancelled: %v", t.name, err)
 }
 
 func (w *world) setPos(t *thread, i int) {
@@ -253,45 +292,97 @@ func (w *world) runnerThread(t *thread, r runner_pb.RunnerServer, ops []string) 
 	w.finishThread(t)
 }
 
+var (
+	opsCleaner = []string{"cleaner"}
+	opsRunner  = []string{"runner.Run", "runner.CheckReadiness"}
+	opsDir     = []string{"root.Mkdir", "root.Enter", "root.Remove", "root.RemoveAll", "dir.Close"}
+	opsAll     = append(append(append([]string{}, opsCleaner...), opsRunner...), opsDir...)
+	unbounded  = map[string]int{"quick": -1, "thorough": -1}
+)
+
+var quietDirs = []string{"root.Mkdir", "root.Enter", "root.Remove", "root.RemoveAll", "dir.Close"}
+
+// Faults and cancellations are deviations of the engine (thread switches are
+// free, PreemptFree): the per-tier deviation bound limits their total number
+// below the scenario's own budget (maxFaults + maxCancels); -1 = only the
+// scenario's own budget applies.
 var configs = []config{
+	// --- Concurrency of the IdleInvoker proper: three users (two workers
+	// through the build directory creators, one runner call). Directory
+	// operations other than the action body are atomic here.
 	{
-		name:      "digest+parallel+run",
+		name:      "invoker-3users",
 		workers:   [][]action{{{&digestA}}, {{nil}}},
 		runnerOps: []string{"Run"},
+		faultAt:   append(append([]string{}, opsCleaner...), opsRunner...),
+		quiet:     quietDirs,
 		maxFaults: 2, maxCancels: 1,
-		bounds: map[string]int{"quick": -1, "thorough": -1},
+		bounds: map[string]int{"quick": 1, "thorough": -1},
 	},
 	{
-		name:      "parallel+parallel+readiness",
-		workers:   [][]action{{{nil}}, {{nil}}},
+		name: "invoker-2users", c14: true,
+		workers:   [][]action{{{nil}}},
 		runnerOps: []string{"CheckReadiness"},
-		maxFaults: 2, maxCancels: 1,
-		bounds: map[string]int{"quick": -1, "thorough": -1},
+		faultAt:   append(append([]string{}, opsCleaner...), opsRunner...),
+		quiet:     quietDirs,
+		maxFaults: 2, maxCancels: 1, bounds: unbounded,
+	},
+	// --- Error paths of the directory creators under concurrency.
+	{
+		name: "dirs-2workers", c14: true,
+		workers:   [][]action{{{nil}}, {{nil}}},
+		faultAt:   opsAll,
+		maxFaults: 2, maxCancels: 1, bounds: unbounded,
 	},
 	{
-		name:      "reuse-digest-twice+parallel-twice",
+		name: "worker+run", c14: true,
+		workers:   [][]action{{{nil}}},
+		runnerOps: []string{"Run"},
+		faultAt:   opsAll,
+		maxFaults: 2, maxCancels: 1, bounds: unbounded,
+	},
+	{
+		// cleanBuildDirectoryCreator over a base creator that can fail
+		// (not reachable in the production composition, where its base
+		// is the root creator).
+		name: "clean-over-failing-base", c14: true,
+		workers:     [][]action{{{nil}}, {{nil}}},
+		failingBase: true,
+		faultAt:     append(append([]string{"base.GetBuildDirectory"}, opsCleaner...), opsDir...),
+		maxFaults:   2, maxCancels: 1, bounds: unbounded,
+	},
+	// --- Directory names are reused (same digest twice, counter for
+	// parallel actions): nothing may survive between actions.
+	{
+		name:      "reuse-2x1",
+		workers:   [][]action{{{&digestA}, {&digestA}}, {{nil}}},
+		faultAt:   opsAll,
+		maxFaults: 1, maxCancels: 1, bounds: unbounded,
+	},
+	{
+		name:      "reuse-2x2",
 		workers:   [][]action{{{&digestA}, {&digestA}}, {{nil}, {nil}}},
+		faultAt:   opsAll,
 		maxFaults: 1, maxCancels: 1,
-		bounds: map[string]int{"quick": -1, "thorough": -1},
+		bounds: map[string]int{"quick": 0, "thorough": -1},
+	},
+	// --- Everything at once: every operation a scheduling point.
+	{
+		name:      "full-3users",
+		workers:   [][]action{{{&digestA}}, {{nil}}},
+		runnerOps: []string{"Run"},
+		faultAt:   opsAll,
+		maxFaults: 2, maxCancels: 1,
+		bounds: map[string]int{"quick": 0, "thorough": 2},
 	},
 }
 
-var dbgKeys map[string]int
-
 func TestMC(t *testing.T) {
 	log.SetOutput(io.Discard)
-	if os.Getenv("DBG_KEYS") != "" {
-		dbgKeys = map[string]int{}
-		defer func() {
-			f, _ := os.Create(os.Getenv("DBG_KEYS"))
-			for k, n := range dbgKeys {
-				fmt.Fprintf(f, "%d %s\n", n, k)
-			}
-			f.Close()
-		}()
-	}
+
 	scs := []*mc.Scenario{}
 	for _, c := range configs {
+
 		scs = append(scs, scenario(c))
 	}
 	mc.Main(t, scs, nil)
